@@ -317,7 +317,84 @@ func runC07(c *Ctx, r *Report) {
 			}
 		}
 		if ms == nil {
-			r.Violate("R-C07.2", key, th.Body.Pos(), "Hashable."+lf.field+" is not a freshly made list filled element by element")
+			// the append form: the list handed to the Hashable literal (here, or in the helper that converts the
+			// getter's list) starts empty and gets one element appended per element of the source, in order
+			isGetterExpr := func(fn *Fn) func(ast.Expr) bool {
+				return func(e ast.Expr) bool {
+					call, ok := ast.Unparen(e).(*ast.CallExpr)
+					if !ok {
+						return false
+					}
+					se, ok := ast.Unparen(call.Fun).(*ast.SelectorExpr)
+					return ok && se.Sel.Name == lf.getter && len(call.Args) == 0
+				}
+			}
+			okApp, whyApp := false, "Hashable."+lf.field+" is not a freshly made list filled element by element"
+			var litVal ast.Expr
+			walkNoLit(th.Body, func(n ast.Node) bool {
+				if cl, ok := n.(*ast.CompositeLit); ok && namedOf(p.TypeOf(th, cl)) == hashT {
+					for _, el := range cl.Elts {
+						if kv, ok := el.(*ast.KeyValueExpr); ok {
+							if id, ok := kv.Key.(*ast.Ident); ok && id.Name == lf.field {
+								litVal = kv.Value
+							}
+						}
+					}
+				}
+				return true
+			})
+			if id, ok := ast.Unparen(litVal).(*ast.Ident); ok && litVal != nil {
+				vo := p.ObjOf(th, id)
+				if okA, w := appendCollects(p, th, vo, isGetterExpr(th)); okA {
+					okApp = true
+				} else {
+					whyApp = "Hashable." + lf.field + " is not an element-wise image of " + lf.getter + "(): " + w
+					// v, err := helper(e.GetF()): the helper builds the list
+					walkNoLit(th.Body, func(n ast.Node) bool {
+						as, ok := n.(*ast.AssignStmt)
+						if !ok || len(as.Rhs) != 1 || okApp {
+							return true
+						}
+						if lid, ok := ast.Unparen(as.Lhs[0]).(*ast.Ident); !ok || p.ObjOf(th, lid) != vo {
+							return true
+						}
+						call, ok := ast.Unparen(as.Rhs[0]).(*ast.CallExpr)
+						if !ok {
+							return true
+						}
+						cf := p.Callee(th, call)
+						if cf == nil || p.ByObj[cf] == nil {
+							return true
+						}
+						h := p.ByObj[cf]
+						for ai, a := range call.Args {
+							if !isGetterExpr(th)(a) {
+								continue
+							}
+							po := paramObjAny(h, ai)
+							walkNoLit(h.Body, func(m ast.Node) bool {
+								rs, ok := m.(*ast.ReturnStmt)
+								if !ok || len(rs.Results) == 0 {
+									return true
+								}
+								if rid, ok := ast.Unparen(rs.Results[0]).(*ast.Ident); ok && rid.Name != "nil" {
+									if okH, wH := appendCollects(p, h, p.ObjOf(h, rid), func(e ast.Expr) bool {
+										id, ok := ast.Unparen(e).(*ast.Ident)
+										return ok && p.ObjOf(h, id) == po
+									}); okH {
+										okApp = true
+									} else {
+										whyApp = "the list built by " + h.Name + " is not an element-wise image of its argument: " + wH
+									}
+								}
+								return true
+							})
+						}
+						return true
+					})
+				}
+			}
+			r.Check(okApp, "R-C07.2", key, th.Body.Pos(), "the signed "+lf.field+" list starts empty and gets one element appended per element of "+lf.getter+"(), in order", whyApp)
 			continue
 		}
 		lenOK, elemOK, nst, why := elementwise(ms, isSrc, srcName)
